@@ -338,6 +338,7 @@ func loopRun(in interface{}) (string, interface{}, map[string]int) {
 		case "restart":
 			if step.Shard < len(w.shards) {
 				w.setClock()
+				w.shards[step.Shard].cfg = prom.NewConfigManager() // a new process starts from the default configuration
 				if err := w.shards[step.Shard].start(); err != nil {
 					o.Panic = "restart: " + err.Error()
 				}
